@@ -397,7 +397,9 @@ def e_bad_names(rng, m):
         if not t:
             return None
         old = t["name"]
-        t["name"] = rng.choice(["1bad", "_x", "a b", old + "\n", "\n" + old])
+        t["name"] = rng.choice(["1bad", "_x", "a b", old + "\n", "\n" + old,
+                                old + "\u212a", "\u017f" + old,
+                                old + "\xe9"])
         # keep references consistent so this is the only problem
         for c, _, _ in cs:
             for ch in c["children"]:
@@ -412,7 +414,9 @@ def e_bad_names(rng, m):
     c, kt, _ = rng.choice(cs)
     if k == "keyname":
         c["children"].append(_newkey(rng.choice(
-            family.BAD_KEYS[kt][:2] + ["zeta9\n", "zeta9\t", "\nzeta9"]),
+            family.BAD_KEYS[kt][:2] + ["zeta9\n", "zeta9\t", "\nzeta9",
+                                       "zeta\u212a9", "\u212aeta9",
+                                       "zeta9\u0131"]),
             "badname_1"))
         return "key name invalid under " + kt
     if k == "attribute":
